@@ -21,6 +21,9 @@ pub struct MmapCase {
     /// container of the input file (the mapping is sized by a pre-pass over the file)
     #[serde(default)]
     pub cont: Option<Container>,
+    /// the same computer object first runs on these records (written to the same input path), then on `recs`
+    #[serde(default)]
+    pub first: Option<Vec<Rec>>,
 }
 
 pub fn check_mmap(c: &MmapCase) -> Verdict {
@@ -44,6 +47,13 @@ pub fn check_mmap(c: &MmapCase) -> Verdict {
     let dir = crate::scratch_dir();
     let input = io::write_input(dir.path(), "in", &c.recs, &cont);
     let out = dir.path().join("out.txt");
+    if let Some(f) = &c.first {
+        // FASTQ cannot hold records without bases: the earlier contents keep those that have some
+        let f: Vec<Rec> = if cont.is_fastq() { f.iter().filter(|r| !r.seq.0.is_empty()).cloned().collect() } else { f.clone() };
+        oligo_exec::FIRST_INPUT.with(|x| *x.borrow_mut() = Some(io::serialise(&f, &cont)));
+        v.class("same-object-second-run-on-a-rewritten-input");
+        v.class_if(f.len() != c.recs.len(), "record-count-changed-between-the-runs");
+    }
     let cfg = OligoCfg { k: c.k, threads: c.threads, memory: 4usize << 30, writer: Writer::Mmap, norm: true, header: c.header, delim: c.delim.clone() };
     let r = oligo_exec::exec(&io::path_str(&input), &io::path_str(&out), &cfg, &c.sched);
     if let Some((pos, len, cap)) = r.oob_write {
@@ -122,9 +132,11 @@ impl Leg for Mmap {
         (prop_oneof![10 => 1usize..=6, 1 => 7usize..=8], delim_strategy(), any::<bool>(), gen::threads_strategy())
             .prop_flat_map(move |(k, delim, header, threads)| {
                 let p = RecParams { max_records: if k >= 7 { 3 } else { max_records }, scale: k, max_len: 40, degenerate_w: 2, bounds: [k, 0, 0], nuc_only: false };
-                (gen::records_in_container(p), gen::sched_strategy(true, 2 * max_records)).prop_map(move |((recs, cont), sched)| {
+                (gen::records_in_container(p), gen::sched_strategy(true, 2 * max_records), prop_oneof![4 => Just(None), 1 => gen::records(p).prop_map(Some)]).prop_map(move |((recs, cont), sched, first)| {
                     let threads = if matches!(sched, Sched::Controlled(_)) { ((threads - 1) % 6) + 1 } else { threads };
-                    MmapCase { recs, k, delim: delim.clone(), header, threads, sched, giant: None, cont: Some(cont) }
+                    // the earlier run goes free-running (the controlled scheduler is installed once per execution)
+                    let first = if matches!(sched, Sched::Controlled(_)) { None } else { first };
+                    MmapCase { recs, k, delim: delim.clone(), header, threads, sched, giant: None, cont: Some(cont), first }
                 })
             })
             .boxed()
@@ -145,7 +157,7 @@ impl Leg for MmapGiant {
             .prop_flat_map(move |(k, delim, header, threads, at)| {
                 let p = RecParams { max_records: 4, scale: k, max_len: 40, degenerate_w: 2, bounds: [k, 0, 0], nuc_only: false };
                 (gen::records(p), prop_oneof![1 => gen::giant(60_000, hi, b"ACGTN".to_vec()), 1 => gen::giant_near_one(hi.min(3_400_000))])
-                    .prop_map(move |(recs, g)| MmapCase { recs, k, delim: delim.clone(), header, threads, sched: Sched::Free, giant: Some((g, at)), cont: None })
+                    .prop_map(move |(recs, g)| MmapCase { recs, k, delim: delim.clone(), header, threads, sched: Sched::Free, giant: Some((g, at)), cont: None, first: None })
             })
             .boxed()
     }
